@@ -98,9 +98,26 @@ func newInst(s *vdrv.Scenario) vdrv.Instance {
 		in.q = queue.NewQueue(queue.JDKLinkedQueueType)
 	}
 	for _, v := range s.Prefill {
-		in.q.Offer(v)
+		if v < 0 {
+			in.q.Poll() // set-up scripts: a negative entry is a Poll (lagging head / tail shapes)
+		} else {
+			in.q.Offer(v)
+		}
 	}
 	return in
+}
+
+// livePrefill is the content the set-up script leaves in the queue.
+func livePrefill(s *vdrv.Scenario) []int64 {
+	var q []int64
+	for _, v := range s.Prefill {
+		if v >= 0 {
+			q = append(q, v)
+		} else if len(q) > 0 {
+			q = q[1:]
+		}
+	}
+	return q
 }
 
 // ---- monitors -----------------------------------------------------------
@@ -203,9 +220,10 @@ func monitor(s *vdrv.Scenario, h *vdrv.History, fin string, aborted string) stri
 	lastNext := map[int]int64{}
 	var ops []porcupine.Operation
 	offered := map[int64]bool{}
-	for _, v := range s.Prefill {
+	pre := livePrefill(s)
+	for _, v := range pre {
 		offered[v] = true
-		ops = append(ops, porcupine.Operation{ClientId: 99, Input: qin{"o", v}, Call: int64(-2 * (len(s.Prefill) - len(ops))), Output: "u", Return: int64(-2*(len(s.Prefill)-len(ops)) + 1)})
+		ops = append(ops, porcupine.Operation{ClientId: 99, Input: qin{"o", v}, Call: int64(-2 * (len(pre) - len(ops))), Output: "u", Return: int64(-2*(len(pre)-len(ops)) + 1)})
 	}
 	polled := map[int64]int{}
 	goneInv := map[int64]int{} // earliest invocation of a call that took the element out
@@ -336,7 +354,7 @@ func monitor(s *vdrv.Scenario, h *vdrv.History, fin string, aborted string) stri
 	}
 	// iterator traversals
 	offInv, offRet := map[int64]int{}, map[int64]int{}
-	for _, v := range s.Prefill {
+	for _, v := range livePrefill(s) {
 		offInv[v], offRet[v] = -1, -1
 	}
 	for _, c := range cs {
@@ -393,7 +411,7 @@ func seqReference(s *vdrv.Scenario, cs []*call) string {
 		live bool
 	}
 	var cells []cell
-	for _, v := range s.Prefill {
+	for _, v := range livePrefill(s) {
 		cells = append(cells, cell{v, true})
 	}
 	firstLive := func(from int) int {
